@@ -104,7 +104,7 @@ def load_known() -> tuple[dict, list]:
 TRUSTED = [
     "Lean 4.33.0 kernel; axioms allowed: propext, Classical.choice, Quot.sound (audited per theorem by #print axioms)",
     "no native_decide / bv_decide / sorry / admit / added axioms (grep on every run)",
-    "harness/translate.py (Python AST -> Lean), validated per run by differential execution of the Float copies",
+    "harness/translate.py + harness/sites.py (Python AST -> Lean, functions and sites inside methods), validated per run by differential execution of the Float copies against the Python originals / compiled site expressions",
     "harness correspondence check + driver line protocol (parsing, canonicalisation)",
     "hand-written models of torch/CPython primitives (slicing, cat, roll, gather/scatter, hooks, state_dict), validated by correspondence only",
     "element-wise lifting of scalar definitions to tensors; Lean Float = IEEE double = torch float64 op-by-op",
